@@ -1473,8 +1473,38 @@ class Interp:
         return fr.env.pop(acc_name)
 
     # calls -------------------------------------------------------------------
+    def sum_genexp(self, e, fr):
+        """sum(<elt> for x in <concrete items> if <conds>) without forking: sum of If(conds, elt, 0)."""
+        g = e.args[0].generators[0]
+        it = self.eval(g.iter, fr)
+        items = self.concrete_items(it)
+        if items is None:
+            return _MISSING
+        inner = Frame(fr.fi, dict(fr.env))
+        inner.loop_ordinals = fr.loop_ordinals
+        total = 0
+        for x in items:
+            self.assign(g.target, x, inner)
+            conds = [self.truthy(self.eval(c, inner)) for c in g.ifs]
+            v = self.eval(e.args[0].elt, inner)
+            if any(c is False for c in conds):
+                continue
+            sym = [to_z3(c) for c in conds if c is not True]
+            if sym:
+                zv = to_z3(v)
+                if zv.sort() not in (IntS, RealS):
+                    return _MISSING
+                v = z3.If(z3.And(*sym), zv, z3.IntVal(0) if zv.sort() == IntS else z3.RealVal(0))
+            total = self.binop(ast.Add(), total, v, e)
+        return total
+
     def ex_Call(self, e, fr):
         text = ast.unparse(e.func)
+        if text == 'sum' and len(e.args) == 1 and not e.keywords and isinstance(e.args[0], ast.GeneratorExp) \
+                and len(e.args[0].generators) == 1 and 'sum' not in self.spec.models and 'sum' not in fr.env:
+            r = self.sum_genexp(e, fr)
+            if r is not _MISSING:
+                return r
         args = []
         for a in e.args:
             if isinstance(a, ast.Starred):
